@@ -217,6 +217,7 @@ func runC01(args []string) {
 	}
 	hlib.Parallel(len(procCases), 8, func(k int) { h.runProc(procCases[k]) })
 	t3 := time.Now()
+	h.localise()
 	npred, nagree := 0, 0
 	for i := range h.results {
 		if h.cases[i].Pred && h.results[i].V != "skip" {
@@ -230,6 +231,54 @@ func runC01(args []string) {
 	hlib.EmitRaw(map[string]any{"v": "summary", "programs_built": h.builds, "batches": len(batchIdx),
 		"process_level_cases": len(procCases), "model_predicted": npred, "model_agrees": nagree,
 		"t_compile_s": t1.Sub(t0).Seconds(), "t_batches_s": t2.Sub(t1).Seconds(), "t_proc_s": t3.Sub(t2).Seconds()})
+}
+
+// localise narrows the signature of every output difference to the program features that explain it:
+// spectrum-based -- a feature (statement kind / operator / layout variant) is suspicious when every
+// program of this run that contains it fails (support >= 2); if there is none, the feature with the
+// highest failure ratio.  One root cause then gives one signature instead of one per program shape.
+func (h *c01) localise() {
+	total, fails := map[string]int{}, map[string]int{}
+	feats := make([][]string, len(h.cases))
+	for i := range h.cases {
+		if h.results[i].V == "skip" {
+			continue
+		}
+		feats[i] = strings.Split(kindSet(h.cases[i].Prog.Body), ",")
+		bad := h.results[i].V == "viol" && (strings.HasPrefix(h.results[i].Sig, "output-diff:") || strings.HasPrefix(h.results[i].Sig, "proc-diff:"))
+		for _, f := range feats[i] {
+			total[f]++
+			if bad {
+				fails[f]++
+			}
+		}
+	}
+	for i := range h.results {
+		r := &h.results[i]
+		if r.V != "viol" || !(strings.HasPrefix(r.Sig, "output-diff:") || strings.HasPrefix(r.Sig, "proc-diff:")) {
+			continue
+		}
+		var sure []string
+		best, bestR := "", -1.0
+		for _, f := range feats[i] {
+			ratio := float64(fails[f]) / float64(total[f])
+			if fails[f] == total[f] && total[f] >= 2 {
+				sure = append(sure, f)
+			}
+			if ratio > bestR || (ratio == bestR && f < best) {
+				best, bestR = f, ratio
+			}
+		}
+		parts := strings.SplitN(r.Sig, ":", 4) // output-diff : fam : kind : kindset
+		if len(parts) < 4 {
+			continue
+		}
+		if len(sure) == 0 {
+			sure = []string{best}
+		}
+		sort.Strings(sure)
+		r.Sig = parts[0] + ":" + parts[2] + ":" + strings.Join(sure, ",")
+	}
 }
 
 func ntKey(c *c01Case) string {
